@@ -167,4 +167,6 @@ def rule_no_ok_after_abort(ctx):
     ctx.floor('K1', 'Ok(Ok(_)) returns in process_collected', n, 2)
 
 
-RULES = [rule_fallback_state, rule_restart_on_fallback, rule_restart_impls, rule_no_ok_after_abort]
+from props.C04 import rule_update_body  # noqa: E402  (an aborted update leaves manifest AND object file of the stored version in place)
+
+RULES = [rule_fallback_state, rule_restart_on_fallback, rule_restart_impls, rule_no_ok_after_abort, rule_update_body]
